@@ -51,8 +51,10 @@ let within (x : BQ.t) (want : BQ.t) (n : int) : bool =
 let parse_q s = if s = "NaN" then None else Some (BQ.of_string s)
 
 let degenerate = ref 0
+let calls = ref 0
 
 let compare_call (b : bus) (model : bl_result) obs : string option =
+  incr calls;
   let n = List.length (bus_msgs b) in
   match model, obs with
   | BLErr ErrIsNegative, "ERR:neg" -> None
@@ -111,9 +113,13 @@ let compare_call (b : bus) (model : bl_result) obs : string option =
 
 let () =
   let ic = open_in Sys.argv.(1) in
-  let n = ref 0 and bad = ref 0 in
+  let n = ref 0 and bad = ref 0 and end_seen = ref (-1) in
   (try while true do
       let line = input_line ic in
+      if String.length line >= 4 && String.sub line 0 4 = "END " then begin
+        end_seen := int_of_string (String.sub line 4 (String.length line - 4));
+        raise End_of_file
+      end;
       incr n;
       let res =
         match String.split_on_char ';' line with
@@ -144,5 +150,10 @@ let () =
           Printf.printf "MISMATCH %d\n  case =%s\n  why  =%s\n" !n input why
         end
     done with End_of_file -> ());
+  if !end_seen <> !n then begin
+    Printf.printf "NO-VALID-END-MARKER (END says %d, %d lines read): the case file is truncated or not a C17 case file\n" !end_seen !n;
+    exit 3
+  end;
+  Printf.printf "CALLS-COMPARED %d\n" !calls;
   Printf.printf "DEGENERATE-CALLS-NOT-COMPARED %d\n" !degenerate;
   Printf.printf "CASES %d MISMATCHES %d\n" !n !bad
